@@ -117,9 +117,13 @@ def cgene(x):
     return "GInt %s" % cz(int(x))
 
 
+def is_seq(b):
+    return isinstance(b, (list, tuple, range, array.array))
+
+
 def cbound(b):
-    if isinstance(b, (list, tuple)):
-        return "(BSeq %s)" % czl(b)
+    if is_seq(b):
+        return "(BSeq %s)" % czl(list(b))
     return "(BScalar %s)" % cz(b)
 
 
@@ -242,11 +246,14 @@ def main(run):
         run.note_case(case, nontrivial, sample=case if len(cases) % 997 == 1 else None)
 
     def call(fn, mod, inds, extra, script, seed):
+        import warnings
         proxy = DrawProxy(script, seed)
         old = mod.random
         mod.random = proxy
         try:
-            status, r = guarded(fn, *(list(inds) + list(extra)))
+            with warnings.catch_warnings():
+                warnings.simplefilter("ignore")          # the deprecated aliases warn
+                status, r = guarded(fn, *(list(inds) + list(extra)))
         finally:
             mod.random = old
         idmap = {}
@@ -271,13 +278,13 @@ def main(run):
             viol("operator does not return the very objects it was given", case)
 
     # ------------------------------------------------------------------ two-parent gene crossovers
-    def cx_case(op, kind, p1, p2, script=None, seed=0, indpb=None, valid=True):
-        fn = getattr(tools, op)
+    def cx_case(op, kind, p1, p2, script=None, seed=0, indpb=None, valid=True, alias=None):
+        fn = getattr(tools, alias or op)
         a, b = mk(kind, p1), mk(kind, p2)
         extra = [] if indpb is None else [indpb]
         status, r, log, ids = call(fn, cxmod, [a, b], extra, script, seed)
         c1, c2 = ints(a), ints(b)
-        case = {"op": op, "kind": kind, "p1": p1, "p2": p2, "indpb": indpb, "draws": log,
+        case = {"op": alias or op, "kind": kind, "p1": p1, "p2": p2, "indpb": indpb, "draws": log,
                 "observed": [c1, c2] if status == "ok" else r}
         size = min(len(p1), len(p2))
         if valid:
@@ -317,10 +324,10 @@ def main(run):
         add("%s %s %s%s %s %s %s" % (ctor, czl(p1), czl(p2), pb, cdraws(log), obs, cnatl(ids)), case,
             status != "ok" or c1 != p1 or c2 != p2)
 
-    def es_case(kind, g1, s1, g2, s2, script=None, seed=0, valid=True):
+    def es_case(kind, g1, s1, g2, s2, script=None, seed=0, valid=True, alias=None):
         a, b = mkes(kind, g1, s1), mkes(kind, g2, s2)
         sa, sb = a.strategy, b.strategy
-        status, r, log, ids = call(tools.cxESTwoPoint, cxmod, [a, b], [], script, seed)
+        status, r, log, ids = call(getattr(tools, alias or "cxESTwoPoint"), cxmod, [a, b], [], script, seed)
         c1, c2, t1, t2 = ints(a), ints(b), ints(a.strategy), ints(b.strategy)
         case = {"op": "cxESTwoPoint", "kind": kind, "g1": g1, "s1": s1, "g2": g2, "s2": s2, "draws": log,
                 "observed": [c1, t1, c2, t2] if status == "ok" else r}
@@ -364,7 +371,8 @@ def main(run):
             extra = [indpb]
         status, r, log, ids = call(fn, mutmod, [a], extra, script, seed)
         after = list(a)
-        case = {"op": op, "kind": kind, "p": [repr(x) for x in before], "indpb": indpb, "low": low, "up": up,
+        case = {"op": op, "kind": kind, "p": [repr(x) for x in before], "indpb": indpb,
+                "low": list(low) if is_seq(low) else low, "up": list(up) if is_seq(up) else up,
                 "draws": log, "observed": [repr(x) for x in after] if status == "ok" else r}
         if valid:
             if status != "ok":
@@ -388,8 +396,8 @@ def main(run):
                             break
                 elif op == "mutUniformInt":
                     n = len(before)
-                    lo = list(low)[:n] if isinstance(low, (list, tuple)) else [low] * n
-                    hi = list(up)[:n] if isinstance(up, (list, tuple)) else [up] * n
+                    lo = list(low)[:n] if is_seq(low) else [low] * n
+                    hi = list(up)[:n] if is_seq(up) else [up] * n
                     for x, y, l_, h_ in zip(before, after, lo, hi):
                         if type(y) is not type(x) and not isinstance(y, int):
                             viol("new gene is not an integer", case)
@@ -451,6 +459,13 @@ def main(run):
                 cx_case("cxTwoPoint", "list", p1, p2, script=[d1, d2])
         for cx in range(1, n):
             cx_case("cxOnePoint", "array", p1, p2, script=[cx])
+
+    # the deprecated aliases delegate to the same code
+    for n in range(2, 5):
+        for d1 in range(1, n + 1):
+            for d2 in range(1, n):
+                cx_case("cxTwoPoint", "list", genes(n, 10), genes(n + 1, 20), script=[d1, d2], alias="cxTwoPoints")
+                es_case("array", genes(n, 10), genes(n, 110), genes(n, 20), genes(n, 120), script=[d1, d2], alias="cxESTwoPoints")
 
     # ---- cxUniform: all masks
     for n1 in range(2, N + 1):
@@ -626,8 +641,13 @@ def main(run):
                 extra_len = rng.choice([0, 0, 2])
                 low = [rng.randint(-6, 3) for _ in range(n + extra_len)]
                 up = [x + rng.choice([0, 1, 5]) for x in low]
-                if rng.random() < 0.3:
+                v = rng.random()
+                if v < 0.3:
                     up = tuple(up)
+                elif v < 0.45:
+                    up = array.array("q", up)
+                elif v < 0.55:
+                    low, up = range(-2, -2 + len(low)), range(3, 3 + len(low))
                 if rng.random() < 0.3:
                     low = low[0]
                     up = [max(x, low) for x in up]
